@@ -9,7 +9,9 @@ use crate::chess::Game;
 use crate::obs::{self, guard};
 use crate::play::{emit, open_out};
 use crate::rng::Rng;
-use crate::search::{get_best_move_entry, verif_window_search, TranspositionTable};
+#[cfg(daniel729_chess_verif = "window")]
+use crate::search::verif_window_search;
+use crate::search::{get_best_move_entry, TranspositionTable};
 use crate::searchdrv::{build_game, Capture};
 use crate::verif;
 use crate::Args;
@@ -150,6 +152,14 @@ const WLIM: i32 = 14000;
 /// C09, window level: the windowed search is called as an interior node (any window, depth d, table lookups
 /// disabled, fresh or arbitrary history) on the position itself or on the positions after each pseudo-legal but
 /// illegal move (the mover's king can be taken), and the tree below it is dumped for the exhaustive reference.
+#[cfg(not(daniel729_chess_verif = "window"))]
+#[allow(clippy::too_many_arguments)]
+fn windows(out: &mut crate::play::Out, _cap: &mut Capture, _case: &Value, _game: &Game, fen: &str, pre: &[String], d: i32, _rng: &mut Rng) {
+    // built without the window hook (it did not compile against this tree): the case is skipped, visibly
+    emit(out, json!({"ev": "win", "fen": fen, "pre": pre, "d": d, "via": "", "skip": "window hook not built"}));
+}
+
+#[cfg(daniel729_chess_verif = "window")]
 #[allow(clippy::too_many_arguments)]
 fn windows(out: &mut crate::play::Out, cap: &mut Capture, case: &Value, game: &Game, fen: &str, pre: &[String], d: i32, rng: &mut Rng) {
     let nwin = case["win"].as_u64().unwrap_or(8) as usize;
